@@ -913,6 +913,12 @@ func genTableOpts(t *rapid.T, cli bool, allowDirty bool, safeHeader bool) rtCase
 			target = 70000
 		}
 		c.Repeat = target/per + 1
+		if c.Format == "JSON" && c.Repeat*len(c.Rows) > 3000 {
+			// a JSON record is longer than the estimate (it repeats the column names), so 3000 records cross 64 KiB as
+			// well; the JSON reader of the go-text dependency copies its list of array elements for every element
+			// (quadratic: 15 000 records allocate 2 GB and a 16-shard run exhausted the machine's memory)
+			c.Repeat = 3000/len(c.Rows) + 1
+		}
 		tt := allowedTokens(&c, dirty, false)
 		row := make([]cell, ncols)
 		for j := range row {
